@@ -3,6 +3,8 @@ macro_rules! registry {
     ($action:ident, $id:expr, $ctx:expr, $path:expr) => {
         match $id {
             "C01" => dispatch!($action, props::c01::C01, $ctx, $path),
+            "C02" => dispatch!($action, props::c02::C02, $ctx, $path),
+            "C04" => dispatch!($action, props::c04::C04, $ctx, $path),
             _ => {
                 eprintln!("unknown property {}", $id);
                 2
